@@ -406,7 +406,13 @@ def _build_part(b, script, worder, norder, rng, noise, mem_base):
             mrp = max(1, sum(1 for n in script['nets'] if n['op'] == 'm' and n['p'] == gi))
             mwp = max(1, sum(1 for n in script['nets'] if n['op'] == '@' and n['p'] == gi))
         if m.get('rom'):
-            mem = pyrtl.RomBlock(m['bw'], m['aw'], rom_pyrtl_data(m['rom'], m['bw']),
+            rom_objs = b.__dict__.setdefault('rom_objs', {})
+            if m['rom'].get('share_with') is not None and m['rom']['share_with'] in rom_objs:
+                romdata = rom_objs[m['rom']['share_with']]     # the very object the other ROM holds
+            else:
+                romdata = rom_pyrtl_data(m['rom'], m['bw'])
+            rom_objs[next(i for i, mm in enumerate(script['mems']) if mm is m) + mem_base] = romdata
+            mem = pyrtl.RomBlock(m['bw'], m['aw'], romdata,
                                  name=m.get('name', ''), max_read_ports=mrp,
                                  asynchronous=m.get('async', False),
                                  pad_with_zeros=m['rom'].get('pad', False), block=blk)
